@@ -142,7 +142,7 @@ theorem evalProg_examples :
 theorem registration_is_lifo (s : St) (fr : Frame) (rest : List Frame) (a l : Nat) (k : Prog)
     (hc : s.ctl = .exec) (hf : s.frames = fr :: rest) (hk : fr.kont = .atExit a l :: k) :
     step specs s =
-      { s with frames := { fr with kont := k, cleanups := (a, ckOf l) :: fr.cleanups, regd := a :: fr.regd } :: rest,
+      { s with frames := { fr with kont := k, cleanups := (a, ckOf l, fr.sched) :: fr.cleanups, regd := a :: fr.regd } :: rest,
                outs := s.outs ++ [.reg fr.id a] } := by
   simp [step, hc, hf, execStep, hk, emit]
 
@@ -164,7 +164,7 @@ theorem popped_only_after_cleanups (s : St) (fr : Frame) (rest : List Frame) (o 
   | nil => rfl
   | cons c cs =>
     exfalso
-    obtain ⟨a, ck⟩ := c
+    obtain ⟨a, ck, q⟩ := c
     have : (step specs s).frames.length = rest.length + 1 := by
       simp only [step, hc, hf, exitStep, hcs]
       split <;> (try split) <;> simp [emit]
@@ -352,7 +352,7 @@ example :
       (St.init [.atExit 1 0, .awaitTask [.atExit 2 0, .atExit 3 0, .await 1 false, .ret 1] false, .atExit 4 0, .ret 5] true)
       [.start, .stop, .destroy]).outs =
     [.frameStart 0, .reg 0 1, .frameStart 1, .reg 1 2, .reg 1 3, .leafStart 1 false,
-     .sched 0, .leafStop 1, .sched 0, .cleanup 1 3, .cleanup 1 2, .cleanup 0 1, .root .done,
+     .sched 0, .leafStop 1, .sched 0, .cleanup 1 3, .cleanupSched 0, .cleanup 1 2, .cleanupSched 0, .cleanup 0 1, .cleanupSched 0, .root .done,
      .localsDead 1, .frameDead 1, .localsDead 0, .frameDead 0] := by decide
 
 /-- the child's exception (leaf completed externally with error 7) is caught by the parent's try block:
@@ -362,8 +362,8 @@ example :
       (St.init [.atExit 1 0, .awaitTask [.atExit 2 0, .atExit 3 0, .await 1 false, .ret 1] true, .atExit 4 0, .ret 5] true)
       [.start, .complete 1 (.error 7), .destroy]).outs =
     [.frameStart 0, .reg 0 1, .frameStart 1, .reg 1 2, .reg 1 3, .leafStart 1 false, .sched 0,
-     .localsDead 1, .cleanup 1 3, .cleanup 1 2, .frameDead 1, .reg 0 4,
-     .localsDead 0, .cleanup 0 4, .cleanup 0 1, .frameDead 0, .root (.value 112)] := by decide
+     .localsDead 1, .cleanup 1 3, .cleanupSched 0, .cleanup 1 2, .cleanupSched 0, .frameDead 1, .reg 0 4,
+     .localsDead 0, .cleanup 0 4, .cleanupSched 0, .cleanup 0 1, .cleanupSched 0, .frameDead 0, .root (.value 112)] := by decide
 
 /-- manual scheduler, stop requested before start: the stop request is queued on the scheduler; the task
     finishes (error) but the receiver is completed only when the queued stop request has run (thunk join) -/
@@ -379,13 +379,13 @@ example :
     s.ctl = .waitHop ∧ rootTrace (deliver sp .run s).outs = [.value 5] := by decide
 
 /-- `co_await schedule(2)` (manual schedulers): the task moves to scheduler 2, its later hops use scheduler 2,
-    and at exit — after the cleanup registered later (2), before the one registered earlier (1) — the
-    library's own cleanup takes it back to scheduler 0 (`reg`/`cleanup` with label 0 are that internal cleanup) -/
+    and at exit — after the cleanup registered later (2, which sees scheduler 2), before the one registered earlier (1, sees
+    scheduler 0) — the library's own cleanup takes it back to scheduler 0 (`reg`/`cleanup` with label 0 are that internal cleanup) -/
 example :
     (runEvents (fun _ => ⟨.pending none, false⟩)
       (St.init [.atExit 1 0, .resched 2, .atExit 2 0, .await 1 false, .ret 1] false)
       [.start, .run, .complete 1 (.value 3), .run, .run]).outs =
     [.frameStart 0, .reg 0 1, .reg 0 0, .sched 2, .reg 0 2, .leafStart 1 false, .sched 2,
-     .localsDead 0, .cleanup 0 2, .cleanup 0 0, .sched 0, .cleanup 0 1, .frameDead 0, .root (.value 4)] := by decide
+     .localsDead 0, .cleanup 0 2, .cleanupSched 2, .cleanup 0 0, .sched 0, .cleanup 0 1, .cleanupSched 0, .frameDead 0, .root (.value 4)] := by decide
 
 end Unifex.Props.C10
